@@ -375,7 +375,9 @@ func (st *runState) finish(ri *simcheck.RunInfo, sim *simrt.Sim, t0 time.Time, t
 					fmt.Sprintf("req%d %s: the client went away at +%v, the handler returned %v later (allowed %v); result script %+v", r.ID, r.Path, time.Duration(r.Req.CancelUs)*time.Microsecond, late, allow, brief(r.Req.Result)))
 			}
 		}
-		if len(r.Statuses) > 1 {
+		// (once a write has failed because the client is gone nothing the handler sends is a response any more:
+		// net/http drops a late WriteHeader of the error path; only a connected client must see exactly one status)
+		if len(r.Statuses) > 1 && r.WriteErrs == 0 {
 			add("C12", "two-statuses", "handler wrote two statuses: "+r.Req.Kind, fmt.Sprintf("req%d %s wrote %v", r.ID, r.Path, r.Statuses))
 		}
 		st.checkDocument(r, add)
